@@ -131,6 +131,9 @@ def float_pairs_cell(args):
 REPLAYERS["cell:pairs"] = float_pairs_cell
 
 
+SHARDABLE = True
+
+
 def run(chk, only=None):
     import yadism.coefficient_functions as cf
     from yadism.coefficient_functions import coupling_constants as ccmod
@@ -156,6 +159,8 @@ def run(chk, only=None):
         if only and only != cell["rel"]:
             continue
         cname = ":".join(f"{k}={v}" for k, v in cell.items())
+        if not chk.mine(cname):
+            continue
         with Ctx(chk.seed) as ctx, cm.fixed_nf(), cm.generic_drop_empty(), stubs.cf_stubs():
 
             def body():
@@ -190,6 +195,8 @@ def run(chk, only=None):
     with Ctx(chk.seed) as ctx, cm.fixed_nf(), stubs.cf_stubs():
         P = cm.ew_params(ctx)
         Q2 = ctx.var("Q2", 0, None, wlo=1, whi=20000)
+        if not chk.first:
+            return chk.finish(explanation="shard of C07 (see the merged evidence)", rule="")
         cell = dict(kind="F2", process="NC", pid=11, scheme="FFNS", nf=3, ZMq=(False, False, False), pto=1)
         total = _run(P, cell, Q2, "total")
         light = _run(P, cell, Q2, "light")
